@@ -1096,7 +1096,7 @@ if (in[i] == {nullptr})
 PyObject *seq = PySequence_Fast(obj, "holder");
 if (seq == NULL) {{+
 PyErr_Format(PyExc_TypeError,\t "argument '%s' must be iterable",\t value->name);
-return -1;
+return 0;
 -}}
 Py_ssize_t size = PySequence_Fast_GET_SIZE(seq);
 char **in = {cast_static}char **{cast1}{stdlib}calloc(size, sizeof(char *)){cast2};
